@@ -2,6 +2,10 @@
 
 #include "psc/types/types.h"
 #include "psc/array.h"
+#ifdef PSEUDOENGINE2_VERIF
+#include "psc/error.h"
+#include "verif_hook.h"
+#endif
 
 using namespace PSC;
 
@@ -54,6 +58,20 @@ void Array::init(Context &ctx) {
         size *= dim.getSize();
     }
 
+#ifdef PSEUDOENGINE2_VERIF
+    {
+        static Token verifToken{TokenType::ARRAY, 0, 0};
+        unsigned long vsize = 1;
+        bool over = false;
+        for (auto &dim : dimensions) {
+            unsigned long ds = (unsigned long) dim.getSize();
+            if (ds != 0 && vsize > verif::budget().cells / ds) { over = true; break; }
+            vsize *= ds;
+        }
+        if (over || verif::cells(vsize))
+            throw PSC::RuntimeError(verifToken, ctx, "VERIF budget exhausted: cells");
+    }
+#endif
     data.reserve(size);
 
     size_t capacity = data.capacity();
